@@ -29,6 +29,16 @@ ASSUMPTIONS = {
     'A-ALIAS': 'distinct parameters denote distinct objects; no method rebinding / monkey-patching',
     'A-AWAIT': 'async twin: `await e` is `e`, `async with/for/def` are `with/for/def` (task switches only at awaits)',
     'A-INT': 'Python ints are mathematical integers (exact: they are unbounded); 32-bit ranges appear only where the code enforces them',
+    'A-EPOCH': 'the current time is a non-negative number of seconds below 2^32 - 1',
+    'A-YIELD': 'the consumer of a generator does not touch the device stream between two next() calls',
+    'A-CALLBACK': 'user callbacks (progress, auth) do not touch the device object',
+    'A-WRITEONLY': 'an attribute outside the declared state that no expression of the package reads is not modelled',
+    'A-PLAIN': 'declared fields are plain instance attributes (checked against the class source: a field that is a property makes the function undecided)',
+    'A-RELY': 'C06/C01/C14: the per-function obligations under the rely step at lock acquisitions imply the property for every schedule '
+              '(rely/guarantee meta-theorem); Lock is a mutex; one reader per stream',
+    'A-SESSION': 'after a read of the device stream failed part-way only close()/connect() may follow a normal return (ghost G.broken); frame alignment of '
+                 'the cursor is not modelled beyond that',
+    'A-LIB': 'documented behaviour of socket / select / asyncio streams / async_timeout / usb1 / cryptography, rsa, Crypto is assumed (C17, C18, C20)',
 }
 
 
